@@ -504,7 +504,33 @@ def monitor_case(c, impl):
     return bad
 
 
+def replay(ctx):
+    """Re-run the op list of a replay file on the real code and the model; exit 1 if the failure is still there."""
+    obj = json.load(open(ctx.replay))
+    ops = obj.get("ops") or []
+    ctx.translate(["ws"])
+    ctx.lake_build(MODULES + ["iora_model"])
+    hb = ctx.build_harness("harness/c18_ws.cpp", sanitize=True)
+    if not hb or not ops:
+        print("replay: nothing to run (kind=%s)" % obj.get("kind"))
+        return 1 if ctx.violations else 0
+    c = {"cat": obj.get("category", "corpus"), "ops": ops, "unsure": True}
+    (c, impl, model), = ctx.lockstep("ws", hb, [c])
+    for o, a, b in zip(ops, impl, model):
+        print("op    %s\n impl  %s\n model %s" % (o[:200], a[:200], b[:200]))
+    fails = monitor_case(c, impl)
+    for f in fails:
+        print("PROPERTY FAILS:", f[:300])
+    still = bool(fails) or impl != model
+    print("replay: %s" % ("still failing" if still else "no longer failing"))
+    import shutil
+    shutil.rmtree(ctx.work, ignore_errors=True)
+    return 1 if still else 0
+
+
 def run(ctx: Ctx):
+    if ctx.replay:
+        return replay(ctx)
     quick = ctx.tier == "quick"
     scale = 1 if quick else 20
     rng = ctx.rng
@@ -598,5 +624,7 @@ def load_corpus():
             if fn.endswith(".json"):
                 c = json.load(open(os.path.join(d, fn)))
                 c.setdefault("cat", "corpus")
+                if "expect_msgs" in c:
+                    c["expect_msgs"] = [tuple(unhex(x) if i and isinstance(x, str) else x for i, x in enumerate(e)) for e in c["expect_msgs"]]
                 out.append(c)
     return out
